@@ -279,7 +279,12 @@ func GenCase(r *common.Rng) Case {
 			secs = append(secs, genSection(r, name, rsize, eff, sm))
 		}
 	}
-	cpNames := []string{"cpu", "worker", "sink"}
+	// processor names in any alphabetical relation to their source order (the tool numbers processors by name)
+	cpNames := []string{"cpu", "worker", "sink", "alpha", "zed", "m1"}
+	for i := len(cpNames) - 1; i > 0; i-- {
+		j := r.Intn(i + 1)
+		cpNames[i], cpNames[j] = cpNames[j], cpNames[i]
+	}
 	cpSec := []int{0, 1, 2}
 	for c := range cpSec {
 		if cpSec[c] >= nsec {
